@@ -189,6 +189,14 @@ Proof.
   - inversion H; subst. destruct (IH c) as [-> ->]; auto.
 Qed.
 
+Lemma app_eq_length_l {A} (a b c d : list A) :
+  length a = length c -> a ++ b = c ++ d -> a = c /\ b = d.
+Proof.
+  revert c. induction a as [|x a IH]; intros [|y c] Hl H; simpl in *; try lia.
+  - auto.
+  - inversion H; subst. destruct (IH c) as [-> ->]; auto.
+Qed.
+
 (* ---- isEscPreceding ---------------------------------------------------------------------------- *)
 Lemma bindex_same_length w e : length w = length e ->
   (exists i, bindex w e = Some i) <-> w = e.
